@@ -171,14 +171,16 @@ LM_KINDS = ["PointCloud", "PointUndirectedGraph", "LabelledPointUndirectedGraph"
 
 @st.composite
 def s_image(draw, hmin=2, wmin=2, smax=40, masks=("all", "random", "blob", "single"), fills=("random", "coords"),
-            min_groups=0):
-    def side(lo):
+            min_groups=0, exact=(None, None)):
+    def side(lo, k=None):
+        if k is not None and exact[k] is not None:
+            return exact[k]
         lo = min(lo, smax)
         return draw(st.one_of(st.integers(lo, min(smax, lo + 6)), st.integers(lo, smax)))
 
     c = {
         "cls": draw(st.sampled_from(["Image", "MaskedImage"])),
-        "shape": [side(hmin), side(wmin)],
+        "shape": [side(hmin, 0), side(wmin, 1)],
         "seed": draw(st.integers(0, 2**16)),
         "ch": draw(st.integers(1, 4)),
         "dtype": draw(st.sampled_from(["float64", "float32"])),
@@ -381,8 +383,8 @@ def mask_resize_mismatches(in_mask, out_mask):
 
 def check_unchanged_and_unshared(ctx, im, d0, out, tag):
     d1 = digest.digest(im)
-    if d1 != d0:
-        ctx.fail("input_modified." + tag, lambda: "first difference: %r" % (digest.digest_diff(d0, d1),))
+    if digest.parameter_mutation(d0, d1) is not None:
+        ctx.fail("input_modified." + tag, lambda: "first difference: %r" % (digest.parameter_mutation(d0, d1),))
     sh = digest.shared_buffers(im, out)
     ctx.expect(not sh, "output_shares_buffer_with_input." + tag, lambda: repr(sh[:4]))
 
@@ -404,7 +406,9 @@ def check_landmarks(ctx, im, out, factor, tag):
         if not ctx.expect(type(a) is type(b), "landmarks.class." + tag,
                           lambda: "%s -> %s" % (type(a).__name__, type(b).__name__)):
             continue
-        sd = digest.state_diff(a, b, skip=(".points",))
+        va, vb = digest.public_view(a), digest.public_view(b)
+        va.pop("points"), vb.pop("points")
+        sd = digest.state_diff(va, vb, memo_tolerant=True)
         ctx.expect(sd is None, "landmarks.structure." + tag, lambda: "group %r: %s" % (g, sd))
         if factor is None:
             ctx.expect(np.array_equal(a.points, b.points), "landmarks.points_changed." + tag,
@@ -559,10 +563,28 @@ def s_daisy():
         feat = draw(s_daisy_feature())
         hmin = s_daisy_sizes(draw, feat["kw"])
         wmin = s_daisy_sizes(draw, feat["kw"])
-        img = draw(s_image(hmin=hmin, wmin=wmin))
+        # sides n whose output size `out` is float-fragile: (out / n) * n != out in double precision, so code that
+        # goes through the scale factor instead of the target size is off by one there (rare: 25, 35, 50, 51 ...)
+        fr = fragile_sides(feat["kw"])
+        exact = [None, None]
+        if fr:
+            for k in (0, 1):
+                if draw(st.integers(0, 3)) == 0:
+                    exact[k] = draw(st.sampled_from(fr))
+        img = draw(s_image(hmin=hmin, wmin=wmin, exact=tuple(exact)))
         return {"feat": feat, "img": img}
 
     return s()
+
+
+def fragile_sides(kw, smax=64):
+    r, s = kw["radius"], kw["step"]
+    out = []
+    for n in range(2 * r + 1, smax + 1):
+        o = int(math.ceil((n - 2 * r) / float(s)))
+        if (o / n) * n != o:
+            out.append(n)
+    return out
 
 
 def daisy_out_shape(shape, kw):
@@ -876,7 +898,7 @@ def c_compose(case, ctx):
     out = f2(mid)
     out_arr = f2(mid_arr)
     check_unchanged_and_unshared(ctx, im, d0, out, tag)
-    ctx.expect(digest.digest(mid) == d_mid, "input_modified.compose.second_stage", "")
+    ctx.expect(digest.parameter_mutation(d_mid, digest.digest(mid)) is None, "input_modified.compose.second_stage", "")
     ctx.expect(np.array_equal(arr, arr0, equal_nan=True), "input_array_modified." + tag, "")
     if not check_kind(ctx, im, out, tag):
         return
